@@ -337,6 +337,23 @@ def _native_monitor(which, nn, bb, ns_user=None):
         st = lambda g: np.asarray(g.omega_border)[:, 1, 0]
         full = lambda g: np.asarray(g.omega_border).reshape(np.asarray(g.omega_border).shape[0], -1)
         ix = lambda g: int(g.curr_omega_border_idx)
+    elif "param_batch" in which:
+        from jinns.data._DataGenerators import DataGeneratorParameter
+        k1, k2 = jax.random.split(key)
+        # keys given as a dict whose insertion order is not alphabetical; the two stores live in disjoint ranges
+        g = DataGeneratorParameter({"nu": k1, "D": k2}, nn, bb, {"nu": (0.0, 1.0), "D": (10.0, 11.0)}, "uniform", {})
+        for call in range(3):
+            g2, batch = g.param_batch()
+            for kname, (lo_, hi_) in (("nu", (0.0, 1.0)), ("D", (10.0, 11.0))):
+                st_ = np.asarray(g2.param_n_samples[kname]).reshape(-1)
+                bt_ = np.asarray(batch[kname]).reshape(-1)
+                if st_.min() < lo_ or st_.max() > hi_ or bt_.min() < lo_ or bt_.max() > hi_:
+                    return [f"call {call}: n={nn}, b={bb}: the store / batch of parameter '{kname}' holds values outside its own samples "
+                            f"(range [{lo_}, {hi_}]): store {st_.tolist()[:4]}..., batch {bt_.tolist()}"]
+                if not np.allclose(np.sort(st_), np.sort(np.asarray(g.param_n_samples[kname]).reshape(-1))):
+                    return [f"call {call}: the store of parameter '{kname}' is no longer a permutation of its samples"]
+            g = g2
+        return None
     else:
         g = DataGeneratorObservations(key, bb, jnp.arange(nn, dtype=float)[:, None], jnp.arange(nn, dtype=float)[:, None])
         get = lambda g: g.obs_batch()
